@@ -52,7 +52,7 @@ def canon_subst(root, is_match, value_canon):
     seen[id(x)] = len(seen)
     n = seen[id(x)]
     if isinstance(x, config_lib.Buildable):
-      args = config_lib.ordered_arguments(x)
+      args = common.own_ordered_arguments(x)
       tags = sorted((repr(k), sorted(t.__name__ for t in ts)) for k, ts in x.__argument_tags__.items() if ts)
       return ("b", n, type(x).__name__, l2.sym_name(x.__fn_or_cls__),
               tuple((k, go(v)) for k, v in args.items()), tuple(map(tuple, map(lambda t: (t[0], tuple(t[1])), tags))))
@@ -238,7 +238,7 @@ def canon_marked(root, value, deep, original_buildable_ids):
     seen[id(x)] = len(seen)
     n = seen[id(x)]
     if isinstance(x, config_lib.Buildable):
-      args = config_lib.ordered_arguments(x)
+      args = common.own_ordered_arguments(x)
       tags = sorted((repr(k), sorted(t.__name__ for t in ts)) for k, ts in x.__argument_tags__.items() if ts)
       return ("b", n, type(x).__name__, l2.sym_name(x.__fn_or_cls__),
               tuple((k, go(v)) for k, v in args.items()), tuple(map(tuple, map(lambda t: (t[0], tuple(t[1])), tags))))
